@@ -15,6 +15,7 @@ def extractor(facts, rep):
     rep.guarded("codes", C07.FN + "csi_dispatch", lambda: C07.rule_codes(facts, rep))
     rep.guarded("substate", C07.FN + "csi_dispatch", lambda: C07.rule_substate(facts, rep))
     rep.guarded("emit", C07.FN + "csi_dispatch", lambda: C07.rule_emit(facts, rep))
+    rep.guarded("model", C07.FN + "csi_dispatch", lambda: C07.rule_model(facts, rep))
 
 
 def palette_tables(facts, rep):
